@@ -105,14 +105,16 @@ func (o *vOrd) handlers() *verifHandlers {
 					if o.until == "harness.release" {
 						limit = 5 * time.Second // released by the harness itself
 					}
-					t := time.AfterFunc(limit, func() { o.mu.Lock(); o.cond.Broadcast(); o.mu.Unlock() })
 					deadline := time.Now().Add(limit)
 					o.holding = true
 					for o.seen[o.until] == 0 && time.Now().Before(deadline) {
+						// (re-armed wake-up: a single timer set before the deadline was computed could fire a moment
+						// before the deadline and leave this goroutine waiting for ever - seen once in 1200 thorough cases)
+						t := time.AfterFunc(5*time.Millisecond, func() { o.mu.Lock(); o.cond.Broadcast(); o.mu.Unlock() })
 						o.cond.Wait()
+						t.Stop()
 					}
 					o.holding = false
-					t.Stop()
 				}
 				o.mu.Unlock()
 			}
@@ -127,12 +129,12 @@ func (o *vOrd) handlers() *verifHandlers {
 			o.cond.Broadcast()
 			if name == o.holdAt && o.until != "" && o.seen[o.until] == 0 {
 				o.held++
-				t := time.AfterFunc(150*time.Millisecond, func() { o.mu.Lock(); o.cond.Broadcast(); o.mu.Unlock() })
 				deadline := time.Now().Add(150 * time.Millisecond)
 				for o.seen[o.until] == 0 && time.Now().Before(deadline) {
+					t := time.AfterFunc(5*time.Millisecond, func() { o.mu.Lock(); o.cond.Broadcast(); o.mu.Unlock() })
 					o.cond.Wait()
+					t.Stop()
 				}
-				t.Stop()
 			}
 			o.mu.Unlock()
 		},
